@@ -141,6 +141,8 @@ def finish(prop, level, tier, seed, agg, rule, wall, floors=None, extra=None, as
     if reasons:
         for r in reasons:
             print(f"INCONCLUSIVE property={prop} reason={r}")
+        for i in agg.inconclusive[:12]:
+            print(f"  inconclusive case: {json.dumps(i.get('case'), default=repr)[:300]}")
         for i in agg.inconclusive[:2]:
             if i.get("trace"):
                 print(i["trace"])
